@@ -46,7 +46,13 @@ Record exits := { eN : list lstate; eR : list lstate; eB : list lstate; eC : lis
 Definition ex0 := {| eN := []; eR := []; eB := []; eC := [] |}.
 Definition eqst (a b:lstate) := Nat.eqb (fst a) (fst b) && Bool.eqb (snd a) (snd b).
 Definition all_eq (a:lstate) (l:list lstate) := forallb (eqst a) l.
-Definition merge (x y:exits) := {| eN := eN x ++ eN y; eR := eR x ++ eR y; eB := eB x ++ eB y; eC := eC x ++ eC y |}.
+(* exit-state sets are kept duplicate-free, otherwise a run of k branches in sequence would cost 2^k *)
+Definition lstate_dec (a b:lstate) : {a = b} + {a <> b}.
+Proof. decide equality; [apply Bool.bool_dec|apply Nat.eq_dec]. Defined.
+Definition un (l1 l2:list lstate) : list lstate := nodup lstate_dec (l1 ++ l2).
+Lemma in_un a l1 l2 : In a (un l1 l2) <-> In a l1 \/ In a l2.
+Proof. unfold un. rewrite nodup_In, in_app_iff. tauto. Qed.
+Definition merge (x y:exits) := {| eN := un (eN x) (eN y); eR := un (eR x) (eR y); eB := un (eB x) (eB y); eC := un (eC x) (eC y) |}.
 
 Section Checker.
 Variable strict : bool.
@@ -99,9 +105,9 @@ Proof. unfold all_eq. rewrite forallb_forall. intros H Hin. symmetry. apply eqst
 Definition sub (x z:exits) := forall o a, In a (sel o x) -> In a (sel o z).
 Lemma sub_refl x : sub x x. Proof. intros o a; auto. Qed.
 Lemma sub_merge_l x y : sub x (merge x y).
-Proof. intros o a H; destruct o; cbn in *; apply in_or_app; auto. Qed.
+Proof. intros o a H; destruct o; cbn in *; apply in_un; auto. Qed.
 Lemma sub_merge_r x y : sub y (merge x y).
-Proof. intros o a H; destruct o; cbn in *; apply in_or_app; auto. Qed.
+Proof. intros o a H; destruct o; cbn in *; apply in_un; auto. Qed.
 Lemma sub_trans x y z : sub x y -> sub y z -> sub x z.
 Proof. intros H1 H2 o a H. auto. Qed.
 
